@@ -17,7 +17,10 @@ def run(ctx):
                 'distinct = distinct (event, entry point, container kind, field, slice?, option set, outcome) tuples')
     ctx.assumptions += ['projection (harness/proj.py), embedding parse + position shift (harness/c07_embed.py) and '
                         'tokenize-based token multisets / comment windows (harness/c07_extract.py) are trusted',
-                        'f-string internals and expr_context nodes excluded; args_as conversions excluded',
+                        'inside f-strings (py3.12 positions): every expression of a replacement field and everything below it, nested '
+                        'f-strings and fields in format specs included, is extracted like any other node; the FormattedValue '
+                        'wrappers, literal text parts and format-spec JoinedStr are context only (their text does not stand alone); '
+                        'expr_context nodes excluded; args_as conversions excluded',
                         'pars=False: only Undisturbed / Faithful / Cut clauses (documented as able to produce invalid trees)']
     err = []
 
